@@ -32,6 +32,7 @@ def run(ctx: Ctx):
     ctx.attempt(drivers, ctx)
     ctx.attempt(step_guard, ctx)
     ctx.attempt(no_globals, ctx)
+    ctx.attempt(controller_order, ctx)
     ctx.floor("WMC", 3)
     ctx.floor("ORD.driver", 4)
     ctx.not_decided += ["equality of states/events of differently split runs as observed behaviour (follows from the decided clauses + C16)"]
@@ -199,6 +200,39 @@ def no_globals(ctx: Ctx):
                               why="hidden per-call state: stepping would depend on how often it was called before", construct=f"{fn.qualname}:global")
     if n == 0:
         ctx.ok("D4", "IM.global", "no global/nonlocal statement in nrel/hive", file="nrel/hive", line=0, function="<package>")
+
+
+def controller_order(ctx: Ctx):
+    """Re-injecting a generator between two co-simulation calls must not change the order in which generators are
+    consulted: the order field is written only from an explicitly ordered tuple, and the single-generator update
+    leaves it alone."""
+    repo = ctx.repo
+    fn = repo.func(SS, "StepSimulation.update_instruction_generator")
+    oks = [p for p in flow.paths(fn.node) if p.kind == "return" and isinstance(p.value, ast.Call) and flow.dump(p.value.func) == "Success"]
+    good = bool(oks)
+    for p in oks:
+        v = p.value.args[0]
+        kw = {k.arg for k in v.keywords} if isinstance(v, ast.Call) else set()
+        good = good and isinstance(v, ast.Call) and flow.dump(v.func) == "replace" and flow.dump(v.args[0]) == "self" and kw == {"instruction_generators"}
+    ctx.check(good, "D2", "DU.controller-order", "update_instruction_generator replaces one generator and leaves the configured order untouched", fn,
+              why_bad=f"returns {[flow.dump(p.value)[:140] for p in oks]}: the order in which generators are consulted can change when a generator is re-injected between two calls",
+              construct="StepSimulation.update_instruction_generator:order")
+    def ord_writer(site):
+        f = site.func
+        if f is not None and f.relpath == SS and f.qualname in ("StepSimulation.from_tuple", "StepSimulation.update_instruction_generators"):
+            return "from_tuple / update_instruction_generators"
+        return None
+    rules.rule_field_writers(ctx, "D2", "instruction_generator_order", ord_writer, "instruction_generator_order is written only from an explicitly ordered tuple", 2)
+    def uig_caller(site):
+        f = site.func
+        if f is None:
+            return None
+        if f.relpath == SS and f.qualname == "StepSimulation.update":
+            return "StepSimulation.update"
+        if f.relpath.endswith("runner/runner_payload_ops.py") or f.relpath.endswith("state/simulation_state/update/update.py"):
+            return "payload helper passing the caller's tuple"
+        return None
+    rules.rule_callers(ctx, "D2", "update_instruction_generators", uig_caller, "the generator set is rebuilt only from an explicitly ordered tuple", 1)
 
 
 def selftest():
